@@ -297,7 +297,7 @@ def pots_float(pots, scale=None):
     """the doubles handed to both sides: log of the rational, optionally scaled"""
     out = []
     for cl, fdom, vals in pots:
-        fl = [math.log(v) * (scale or 1.0) for v in vals]
+        fl = [(math.log(v) * (scale or 1.0)) if v > 0 else -math.inf for v in vals]
         out.append((cl, fdom, fl))
     return out
 
